@@ -2,10 +2,10 @@ package coins
 
 import (
 	"bytes"
-	"regexp"
 	"encoding/hex"
 	"fmt"
 	"math/big"
+	"regexp"
 	"sort"
 	"strings"
 	"testing"
